@@ -36,6 +36,10 @@ CHECKS["C16"] = (SEM, "every rule HEAD x 3..4-subset of the body-literal menu is
                  "for every instance of <= 4 facts all answer sets of source and result are compared as multisets on "
                  "voc(P); an unsafe/invalid result is a violation", "8/C16")
 
+CHECKS["C12"] = (SEM, "every program QDEF x AGG-RULE x {min,max} x USER is run through optimize(minmax_chains only); for "
+                 "every subset of the fact universe all answer sets of source and result are compared as multisets on "
+                 "voc(P) with costs; one known finding (empty emitted domain) is matched by an instance-class matcher", "8/C12")
+
 ALL = [f"C{i:02d}" for i in range(1, 21)]
 
 
